@@ -39,6 +39,9 @@ CHECKS = {
  "C08": ("exploration", "fresh child process per case: real LoadFilter, raw probe syscalls, kernel outcome vs reference semantics vs interpreter; program compared at hook and via strace at the syscall boundary", "E6 vchild + strace", "DESIGN.md 3/C08",
          "PRNG policies over argument-ignoring probe syscalls (deny-lists, whole-table allow-lists minus probes giving early-return bridges, 12..30-list entries giving 'ja' bridges, conditions on all six arguments) are loaded by the real LoadFilter in throw-away amd64 and 386 processes with flags 0..3 and NNP on/off; directed probes with arbitrary 64-bit register values are issued and the kernel's answer (success, errno, SIGSYS death seen in the wait status, thread disappearance for kill_thread) is compared with the reference semantics; the sock_filter array is compared with the parent's compilation at hook H3 and, sampled, at the syscall boundary by strace.",
          "Host kernel and its two ABIs only; no tracer/listener; 386 children cannot produce argument values >= 2^32; thorough tier adds checkptr and race builds of the child."),
+ "C09": ("fault_enumeration", "per-thread /proc state snapshots and probe syscalls around every call of scripted load histories in fresh child processes", "E6 vchild history + strace", "DESIGN.md 3/C09",
+         "Histories of LoadFilter/Supported/SetNoNewPrivs calls run on pinned OS threads of throw-away processes: all single-call combinations of 7 flag words x NNP x 5 policy kinds x {root, uid 65534}, the divergent-filter thread-sync pattern, a thread-sync chain and PRNG histories; Seccomp, Seccomp_filters and NoNewPrivs of every task and the outcome of probe syscalls on every pinned thread are compared before/after each call: nil iff the caller's filter count grew (and all threads match with thread-sync), error implies nothing changed, an Assemble failure leaves NoNewPrivs untouched, Supported() changes nothing. Each way the kernel can decline (assemble error, EINVAL oversize, EINVAL flags, EACCES, thread-sync refusal) must be observed.",
+         "The kernel's own per-thread state is the oracle; amd64 host only; strace (sampled) records how the kernel declined."),
 }
 
 def main():
